@@ -65,6 +65,20 @@ def _mentions(e, names):
     return any(isinstance(x, ast.Name) and x.id in names for x in ast.walk(e))
 
 
+STRUCTURAL_ATTRS = ("row", "col", "indices", "indptr", "shape", "nnz", "ndim", "size")
+
+
+def _structural(e):
+    """the expression is derived from the pattern of its base: somewhere along the receiver chain a structural attribute is read
+    (coo.row.tolist(), m.indices.astype(int), m.shape[0])"""
+    cur = e
+    while isinstance(cur, (ast.Attribute, ast.Subscript, ast.Call)):
+        if isinstance(cur, ast.Attribute) and cur.attr in STRUCTURAL_ATTRS:
+            return True
+        cur = cur.func if isinstance(cur, ast.Call) else cur.value
+    return False
+
+
 def value_dependent_uses(block, tainted):
     """[(node, why)] inside the once-block"""
     out = []
@@ -72,11 +86,11 @@ def value_dependent_uses(block, tainted):
         for n in ast.walk(st):
             if isinstance(n, ast.Call) and isinstance(n.func, ast.Attribute):
                 d = dotted(n.func) or ""
-                if n.func.attr in VALUE_METHODS and _mentions(n.func.value, tainted) and not d.startswith("_np."):
+                if n.func.attr in VALUE_METHODS and _mentions(n.func.value, tainted) and not d.startswith("_np.") and not _structural(n.func.value):
                     out.append((n, f".{n.func.attr}() of {unparse(n.func.value)[:40]} depends on the values at the first call"))
                 elif d.split(".")[0] in ("_np", "np", "numpy", "_sp") and n.func.attr in VALUE_FUNCS and any(_mentions(a, tainted) for a in n.args):
                     out.append((n, f"{d}(...) of a value derived from the arguments depends on the values at the first call"))
-            elif isinstance(n, ast.Attribute) and n.attr in VALUE_ATTRS and isinstance(n.ctx, ast.Load) and _mentions(n.value, tainted):
+            elif isinstance(n, ast.Attribute) and n.attr in VALUE_ATTRS and isinstance(n.ctx, ast.Load) and _mentions(n.value, tainted) and not _structural(n.value):
                 out.append((n, f".{n.attr} of {unparse(n.value)[:40]} reads the stored values"))
             elif isinstance(n, ast.Compare) and _mentions(n, tainted) and not all(isinstance(o, (ast.Is, ast.IsNot)) for o in n.ops) \
                     and any(isinstance(c, ast.Constant) and isinstance(c.value, (int, float)) and not isinstance(c.value, bool) for c in [n.left] + n.comparators) \
@@ -107,6 +121,12 @@ class T:
         if not self._done:
             self._rows = _np.where(jac.toarray() != 0)[0]
             self._done = True
+    def good2(self, jac):
+        if not self._done:
+            coo = jac.tocoo()
+            self._rows = sorted(set(coo.row.tolist()))
+            self._n = int(coo.shape[0].item()) if False else len(coo.row)
+            self._done = True
     def notonce(self, jac):
         if not self._done:
             x = jac.nonzero()
@@ -121,10 +141,10 @@ def self_check():
     for f in t.body[0].body:
         bl = once_blocks(f)
         got[f.name] = (len(bl), sum(len(value_dependent_uses(b, tainted_names(f))) for _, b in bl))
-    want = {"good": (1, 0), "bad": (1, 1), "notonce": (0, 0)}
+    want = {"good": (1, 0), "good2": (1, 0), "bad": (1, 1), "notonce": (0, 0)}
     if any(got[k] != v for k, v in want.items()) or got["bad2"][0] != 1 or got["bad2"][1] < 2:
         raise AnalysisError(f"ONCE self-check failed: {got}")
-    return 4
+    return 5
 
 
 def apply(chk, rid, packages=("fords", "stacked_time", "aldi", "simultaneous", "equators"), floor=1):
